@@ -1553,7 +1553,8 @@ bool ScriptVM::Process(ScriptContext& context, uinttime_t interruptTime)
             break;
         }
 
-        if (interruptTime && cmdTime >= interruptTime) {
+        // a thread that just ended or yielded is not interrupted any more
+        if (state == vmState_e::Running && interruptTime && cmdTime >= interruptTime) {
             throw ScriptVMErrors::CommandOverflow();
         }
 
